@@ -451,7 +451,7 @@ def reader_vcs(tag, scalar, R):
         v.group = name
         # the EMPTY-tensor completeness claims are REFUTED for rank >= 3 (FINDING_empty_tensor_rejected.md): z3-new does not find
         # the model of the nonlinear system quickly, z3 does; the short timeout only moves on to the next solver sooner
-        v.timeout = 6 if '(EMPTY tensor)' in v.name else 30
+        v.timeout = 45
     rv = reach_vc(wp, name, HDR)
     rv.group = name
     # a second vacuity guard: some stream IS accepted (valid /\ complete /\ hash matches is satisfiable)
